@@ -125,6 +125,18 @@ def untarAll (fx : Facts) (s : Sched) (d : Dest) : List (Str Ã— List Content) â†
       let r := writeObj fx.copyReader s d p cs
       if r.1 then (true, r.2) else untarAll fx s r.2 rest
 
+/-! ### Flushing generated files (bufprotopluginos.responseWriter.Close) -/
+
+/-- One closer per output location, run in configuration order; the first failing flush is
+    returned and the remaining outputs are not flushed.  Returns (error?, number flushed). -/
+def flushOuts : List Bool â†’ Bool Ã— Nat
+  | [] => (false, 0)
+  | fails :: rest =>
+    if fails then (true, 0)
+    else
+      let r := flushOuts rest
+      (r.1, r.2 + 1)
+
 /-! ### Atomic put on disk (storageos.Put with PutWithAtomic + writeObjectCloser.Close) -/
 
 inductive AStep where
